@@ -623,6 +623,8 @@ class Folder:
         if isinstance(e.func, ast.Attribute):
             obj = self.expr(e.func.value)
             m = e.func.attr
+            if getattr(obj, "_sa_model", False) and hasattr(obj, m):
+                return getattr(obj, m)(*args, **kwargs)        # checker-side model object (e.g. a bit array)
             if isinstance(obj, Rec) and m == "__getattribute__" and len(args) == 1 and args[0] in obj.fields:
                 return obj.fields[args[0]]
             if isinstance(obj, str) and m in ("split", "join", "startswith", "endswith", "replace", "rstrip", "lstrip", "count", "find", "isdigit", "format") and not kwargs:
